@@ -1138,7 +1138,7 @@ def do_replay(prop, path):
     c = cases[0]
     profile = "release" if c["env"]["mode"] == "wrapping" else "debug"
     binp, blog = build_harness(profile)
-    if stream in ("twin", "frozen-thread", "allocator", "zst", "multi", "chunk-style", "non-fused", "lying-hint", "clone-crash") and prop in SPECIAL:
+    if stream in ("twin", "frozen-thread", "allocator", "zst", "multi", "chunk-style", "non-fused", "lying-hint", "clone-crash", "wrapper-seq") and prop in SPECIAL:
         ONLY[stream] = c
         problems = []
         try:
@@ -1417,6 +1417,10 @@ def chunk_style_stream(prop, tier, seed, bins, out, problems, kinds=None, chks=(
         c["chunkstyle"] = r.choice(["nth", "skip", "last", "count", "fold", "stepby", "nextnth", "nextskip", "nextstep", "foldpanic", "nextfold", "wnth", "wskip", "wstep"])
         c["final"] = r.choice(["drop", "seq:1", "seq:100"])
         c["sched"] = None
+        if c["chunkstyle"].startswith("w"):
+            # the styles of the for-loop wrappers apply to single pulls: several of them, up to and beyond the end
+            for p_ in c["progs"]:
+                p_ += [r.choice(["next:idsvalues", "next:values", "next:idsvalues"]) for _ in range(2 + r.below(4))]
         cases.append(c)
     if "chunk-style" in ONLY:
         cases = [ONLY["chunk-style"]]
@@ -1473,6 +1477,60 @@ def special_c08(prop, tier, seed, bins, out, problems):
 
 
 SPECIAL["C08"] = special_c08
+
+
+def wrapper_sequential_stream(prop, tier, seed, bins, out, problems):
+    """C04's sequential corollary for the for-loop wrappers driven through nth / skip: one thread pulls with
+    `values().nth(1)` / `ids_and_values().skip(2).next()` only; what comes back is what std's Iterator::nth gives on
+    the sequential iterator: the element at cursor + k if there is one, else nothing, and the cursor moves past it"""
+    binp = bins.get("wrapping")
+    if binp is None or (ONLY and "wrapper-seq" not in ONLY):
+        return
+    n = 80 if tier == "quick" else 800
+    r = gen_cases.Rng(seed * 127 + int(prop[1:]))
+    cases = []
+    for i in range(n):
+        kind = r.choice(["slice", "vec", "array", "range", "iter"])
+        ln = r.below(9)
+        env = gen_cases.mk_env(kind, ln, hint=r.choice(["exact", "inexact", "none"]) if kind == "iter" else "exact",
+                               owning=(kind in ("vec", "array")) or (kind == "iter" and r.chance(1, 2)), start=r.choice([0, 5]) if kind == "range" else 0)
+        prog = [r.choice(["next:idsvalues", "next:values"]) for _ in range(1 + r.below(6))]
+        cases.append(dict(id="%s-wseq-%d" % (prop, i), env=env, progs=[prog], final="drop", seed=0, gen="solo", sched=None,
+                          chunkstyle=r.choice(["wnth", "wskip"])))
+    if "wrapper-seq" in ONLY:
+        cases = [ONLY["wrapper-seq"]]
+    itraces, dead = run_impl(binp, cases)
+    iblocks, _ = parse_blocks(itraces)
+    ok = 0
+    for c in cases:
+        il = iblocks.get(c["id"])
+        rec = dict(case=c, stream="wrapper-seq")
+        if c["id"] in dead or il is None:
+            rec.update(what="the harness process died on this case: %s" % dead.get(c["id"], "no output"), checker="process")
+            out["violations"].append(rec)
+            continue
+        k = 1 if c["chunkstyle"] == "wnth" else 2
+        cur, ln, start = 0, c["env"]["len"], c["env"]["start"]
+        rets = [l for l in il if re.match(r"^E 0 ret ", l)]
+        bad = None
+        for op, l in zip(c["progs"][0], rets):
+            pos = cur + k
+            want = "none" if pos >= ln else "one:%s/%d/1" % (str(pos) if op == "next:idsvalues" else "-", pos + start)
+            got = l.split()[3]
+            if got != want:
+                bad = "after %d positions, %s through %s(%d) returns `%s`, the sequential iterator gives `%s`" % (
+                    min(cur, ln), op, "nth" if k == 1 else "skip", k, got, want)
+                break
+            cur = min(ln, pos + 1)
+        if bad or len(rets) != len(c["progs"][0]):
+            rec.update(what="for-loop wrapper driven through nth / skip on one thread: %s" % (bad or "an operation did not return"),
+                       checker="sequential-oracle", impl_trace=il)
+            out["violations"].append(rec)
+        else:
+            ok += 1
+    out["evaluations"] += len(cases)
+    out["traces_validated_against_impl"] += ok
+    extra_coverage.setdefault(prop, {})["wrapper_sequential_cases"] = ok
 
 
 def special_c02(prop, tier, seed, bins, out, problems):
@@ -1730,7 +1788,7 @@ def style_special(chks):
 # C01: a position that one caller's chunk destroys and another caller is handed is delivered to two owners: the ledger judges
 SPECIAL["C01"] = chain(mk_special_nonfused((1,), lying=(1,)), style_special((8,)))
 SPECIAL["C03"] = chain(mk_special_nonfused((3,)), style_special((8, 2)))
-SPECIAL["C04"] = chain(mk_special_nonfused((4, 2)), style_special((2,)))
+SPECIAL["C04"] = chain(mk_special_nonfused((4, 2)), style_special((2,)), wrapper_sequential_stream)
 SPECIAL["C06"] = mk_special_nonfused((6,), lying=(6,))
 # C10: the remainder is what the wrapped iterator still holds, also behind a premature None: judged against the uncut environment
 SPECIAL["C10"] = mk_special_nonfused((10,), final="seq:100", cut_env=False)
